@@ -4,6 +4,7 @@ import (
 	"fmt"
 	"reflect"
 	"strconv"
+	"strings"
 )
 
 // String casts the provided string into the provided type, returning the
@@ -34,6 +35,11 @@ func String(str string, t reflect.Type) (reflect.Value, error) {
 		}
 		castSlice := reflect.MakeSlice(t, 0, len(converted))
 		for idx, strVal := range converted {
+			if t.Elem().Kind() != reflect.String {
+				// an unquoted element keeps the blanks that follow it up to the
+				// comma; only strings can mean them
+				strVal = strings.TrimSpace(strVal)
+			}
 			castVal, parseErr := String(strVal, t.Elem())
 			if parseErr != nil {
 				return reflect.Value{}, fmt.Errorf("parse error of item %d %q: %s", idx, strVal, parseErr)
